@@ -519,6 +519,11 @@ pub enum ResultWithDeserializedMetadata {
 /// per nesting level, so an unbounded depth lets a malformed frame overflow the stack.
 const MAX_TYPE_NESTING_DEPTH: usize = 128;
 
+/// The number of member types of a tuple / UDT comes from the wire and is announced before
+/// the members: space is set aside for at most this many up front (at every nesting level,
+/// all of them alive at once), the rest grows as members are actually read.
+const MAX_PREALLOCATED_MEMBER_TYPES: usize = 64;
+
 fn deser_type_generic<'frame, 'result, StrT: Into<Cow<'result, str>>>(
     buf: &mut &'frame [u8],
     read_string: fn(&mut &'frame [u8]) -> StdResult<StrT, LowLevelDeserializationError>,
@@ -612,7 +617,7 @@ fn deser_type_generic_nested<'frame, 'result, StrT: Into<Cow<'result, str>>>(
                 .into();
 
             let mut field_types: Vec<(Cow<'result, str>, ColumnType)> =
-                Vec::with_capacity(fields_size);
+                Vec::with_capacity(fields_size.min(MAX_PREALLOCATED_MEMBER_TYPES));
 
             for _ in 0..fields_size {
                 let field_name =
@@ -636,7 +641,7 @@ fn deser_type_generic_nested<'frame, 'result, StrT: Into<Cow<'result, str>>>(
             let len: usize = types::read_short(buf)
                 .map_err(|err| CqlTypeParseError::TupleLengthParseError(err.into()))?
                 .into();
-            let mut types = Vec::with_capacity(len);
+            let mut types = Vec::with_capacity(len.min(MAX_PREALLOCATED_MEMBER_TYPES));
             for _ in 0..len {
                 types.push(deser_type_generic_nested(
                     buf,
